@@ -1,6 +1,7 @@
 import H2V.Lemmas.ConnCountsPLocal
 import H2V.Lemmas.ConnCountsPWitness
 import H2V.Lemmas.CompBasic
+import H2V.Lemmas.ConnCountsPQueueR
 /-
   C18 — per-connection state is bounded by configuration, whatever the peer does.
   Property theorems only (lemmas: `H2V/Lemmas/ConnCountsP*.lean`, notes: `ConnCountsPNOTES.md`).
@@ -111,6 +112,19 @@ example : let fl : FlowControl := { windowSize := { val := 65535 }, available :=
     s.store.findKey? 1 = some 0 ∧ H2V.Lemmas.Comp.isOk (s.recvRecvData 0 [7] false none).2 = true ∧
     ((s.recvRecvData 0 [7] false none).1.counts.recordDataFrame 1).2 = false := by decide
 
+/-- **The scheduling queues cannot grow beyond the number of streams — in every reachable state.**
+    The intrusive queues `pending_send`, `pending_capacity`, `pending_open`,
+    `pending_window_updates` and `pending_reset_expired` never hold a key twice and hold only keys
+    of live slab entries, so each of them is at most as long as the slab (and
+    `pending_reset_expired` at most `reset_max`: `quotas_hold_everywhere`).  A peer cannot make a
+    queue grow by making h2 enqueue the same stream again and again. -/
+theorem queues_are_bounded_by_slab {s : Streams} (h : Reach s) (hp : s.panicked = none) (q : QName) (hq : q ≠ .pendingAccept) :
+    (s.getQ q).length ≤ s.store.slab.length :=
+  (h.qok hp q hq).length_le
+
+/-- non-vacuity -/
+example : Reach wS2 ∧ wS2.panicked = none := ⟨wS2_reach, wS2_facts.1⟩
+
 #print axioms reset_flood_is_cut_off
 #print axioms error_reset_flood_is_cut_off
 #print axioms reset_memory_is_bounded
@@ -118,5 +132,6 @@ example : let fl : FlowControl := { windowSize := { val := 65535 }, available :=
 #print axioms empty_data_flood_is_cut_off
 #print axioms quotas_hold_everywhere
 #print axioms data_flood_disconnects
+#print axioms queues_are_bounded_by_slab
 
 end H2V.Props.C18
